@@ -94,7 +94,9 @@ func (rd *round) slotUS(half2 int) int64 { // half slots -> logical us
 type connEnv struct {
 	g     *nbio.Engine
 	addr  string
-	conns sync.Map // remote address of the accepted connection -> *nbio.Conn
+	conns sync.Map     // remote address of the accepted connection -> *nbio.Conn
+	ln    net.Listener // plain listener for the histories whose nbio side dials
+	peers sync.Map     // remote address of a connection accepted by ln -> net.Conn
 }
 
 func startConnEnv() (*connEnv, error) {
@@ -114,10 +116,59 @@ func startConnEnv() (*connEnv, error) {
 	}
 	env.g = g
 	env.addr = g.Addrs[0]
+	ln, err := net.Listen("tcp", "127.0.0.1:0")
+	if err != nil {
+		g.Stop()
+		return nil, err
+	}
+	env.ln = ln
+	go func() {
+		for {
+			c, err := ln.Accept()
+			if err != nil {
+				return
+			}
+			env.peers.Store(c.RemoteAddr().String(), c)
+		}
+	}()
 	return env, nil
 }
 
-func (env *connEnv) stop() { env.g.Stop() }
+func (env *connEnv) stop() {
+	env.ln.Close()
+	env.g.Stop()
+}
+
+// dialed: the nbio side dials (DialAsyncTimeout: its dial timer lives in the write-timer slot until the connection is
+// established); returns the nbio connection and the plain connection accepted by the listener
+func (env *connEnv) dialed() (*nbio.Conn, net.Conn, error) {
+	type res struct {
+		c   *nbio.Conn
+		err error
+	}
+	ch := make(chan res, 1)
+	if err := env.g.DialAsyncTimeout("tcp", env.ln.Addr().String(), 3*time.Second, func(c *nbio.Conn, err error) { ch <- res{c, err} }); err != nil {
+		return nil, nil, err
+	}
+	var r res
+	select {
+	case r = <-ch:
+	case <-time.After(5 * time.Second):
+		return nil, nil, errors.New("DialAsyncTimeout: no callback within 5 s")
+	}
+	if r.err != nil {
+		return nil, nil, r.err
+	}
+	key := r.c.LocalAddr().String()
+	env.conns.Delete(key)
+	for i := 0; i < 20000; i++ {
+		if v, ok := env.peers.LoadAndDelete(key); ok {
+			return r.c, v.(net.Conn), nil
+		}
+		time.Sleep(250 * time.Microsecond)
+	}
+	return nil, nil, errors.New("the listener did not accept the dialed connection")
+}
 
 func (env *connEnv) accepted(remote string) *nbio.Conn {
 	for i := 0; i < 20000; i++ {
@@ -133,17 +184,28 @@ var bigPayload = make([]byte, 256<<10)
 var smallPayload = []byte("0123456789")
 
 func runConn(rd *round, env *connEnv, p *plan, phase time.Duration) *observation {
-	o := &observation{}
-	cl, err := net.Dial("tcp", env.addr)
-	if err != nil {
-		o.Infra = "dial: " + err.Error()
-		return o
-	}
-	defer cl.Close()
-	c := env.accepted(cl.LocalAddr().String())
-	if c == nil {
-		o.Infra = "the engine did not report the accepted connection"
-		return o
+	o := &observation{StrictCause: true}
+	var cl net.Conn
+	var c *nbio.Conn
+	var err error
+	if p.Dialed {
+		if c, cl, err = env.dialed(); err != nil {
+			o.Infra = "dial: " + err.Error()
+			return o
+		}
+		defer cl.Close()
+	} else {
+		cl, err = net.Dial("tcp", env.addr)
+		if err != nil {
+			o.Infra = "dial: " + err.Error()
+			return o
+		}
+		defer cl.Close()
+		c = env.accepted(cl.LocalAddr().String())
+		if c == nil {
+			o.Infra = "the engine did not report the accepted connection"
+			return o
+		}
 	}
 	rec := newCloseRec()
 	c.SetSession(rec)
